@@ -84,6 +84,11 @@ impl Monitor for M {
                 .batch(1024)
                 .exhaustive("all functional graphs on 1..=6 labelled characters (labels 0,7,100,128,200,255)"),
         );
+        v.push(
+            Phase::new("nextlarger_star", NL_STAR_TOTAL)
+                .batch(8)
+                .exhaustive("star graphs over all 256 characters: 250..=256 characters naming one target t in {0,1,127,128,255}, with t unlinked, t->t, or t->one of its own sources (in-degrees up to 256, one more than a byte holds)"),
+        );
         v.push(Phase::new("nextlarger_random", tier.pick(5_000, 200_000)).batch(64));
         v
     }
@@ -107,6 +112,7 @@ impl Monitor for M {
             ("nextlarger:cycles_len>=3", tier.pick(5_000, 10_000)),
             ("nextlarger:chains_checked", tier.pick(1_000_000, 10_000_000)),
             ("nextlarger:edges_to_nonexistent", tier.pick(1_000, 50_000)),
+            ("nextlarger:star_in_degree_256", 5),
         ]
     }
 
@@ -149,6 +155,7 @@ impl Monitor for M {
             "compress_small" => compress_small_case(idx, obs),
             "compress_random" => compress_random_case(rng, obs),
             "nextlarger_enum" => nextlarger_enum_case(idx, obs),
+            "nextlarger_star" => nextlarger_star_case(idx, obs),
             "nextlarger_random" => nextlarger_random_case(rng, obs),
             other => obs.inconclusive(format!("unknown phase {other}")),
         }
@@ -858,6 +865,59 @@ fn nextlarger_enum_case(idx: u64, obs: &mut Obs) {
     obs.nontrivial_by_construction(1);
 }
 
+const NL_STAR_TARGETS: [u8; 5] = [0, 1, 127, 128, 255];
+const NL_STAR_TOTAL: u64 = 5 * 7 * 3;
+
+/// Fan-in at the limit of the character range: k of the 256 characters name the same next-larger character t.
+/// mode 0: t itself has no link (k <= 255 sources); mode 1: t -> t is one of the k links (in-degree up to 256);
+/// mode 2: t -> its smallest source, everybody else -> t (a 2-cycle with a fan).
+fn nextlarger_star_case(idx: u64, obs: &mut Obs) {
+    let t = NL_STAR_TARGETS[(idx % 5) as usize];
+    let k = 250 + ((idx / 5) % 7) as usize;
+    let mode = idx / 35;
+    let mut edges: BTreeMap<u8, u8> = BTreeMap::new();
+    let others: Vec<u8> = (0..=255u8).filter(|c| *c != t).collect();
+    match mode {
+        0 => {
+            for c in others.iter().take(k.min(255)) {
+                edges.insert(*c, t);
+            }
+        }
+        1 => {
+            edges.insert(t, t);
+            for c in others.iter().take(k - 1) {
+                edges.insert(*c, t);
+            }
+        }
+        _ => {
+            edges.insert(t, others[0]);
+            for c in others.iter().take(k.min(255)) {
+                edges.insert(*c, t);
+            }
+        }
+    }
+    // the order in which the links are presented must not matter: ascending, descending, target's own link last
+    for ord in 0..3 {
+        let mut order: Vec<(u8, u8)> = edges.iter().map(|(a, b)| (*a, *b)).collect();
+        match ord {
+            0 => {}
+            1 => order.reverse(),
+            _ => {
+                if let Some(i) = order.iter().position(|(a, _)| *a == t) {
+                    let e = order.remove(i);
+                    order.push(e);
+                }
+            }
+        }
+        check_next_larger(&edges, &order, &BTreeSet::new(), ord != 1, obs);
+    }
+    let indeg = edges.values().filter(|x| **x == t).count() as u64;
+    if indeg >= 256 {
+        obs.count("nextlarger:star_in_degree_256");
+    }
+    obs.nontrivial_by_construction(1);
+}
+
 fn nextlarger_random_case(rng: &mut Rng, obs: &mut Obs) {
     let n_nodes = match rng.below(4) {
         0 => rng.range_usize(1, 8),
@@ -870,7 +930,8 @@ fn nextlarger_random_case(rng: &mut Rng, obs: &mut Obs) {
     nodes.truncate(n_nodes);
     let mut edges: BTreeMap<u8, u8> = BTreeMap::new();
     let density = rng.range_i64(1, 10) as u64;
-    let style = rng.below(4);
+    let style = rng.below(5);
+    let hubs: Vec<u8> = (0..rng.range_usize(1, 3)).map(|_| *rng.pick(&nodes)).collect();
     for (i, &c) in nodes.iter().enumerate() {
         if !rng.chance(density, 10) {
             continue;
@@ -883,6 +944,14 @@ fn nextlarger_random_case(rng: &mut Rng, obs: &mut Obs) {
                 let bigger: Vec<u8> = nodes.iter().copied().filter(|x| *x > c).collect();
                 if !bigger.is_empty() && rng.chance(9, 10) {
                     *rng.pick(&bigger)
+                } else {
+                    *rng.pick(&nodes)
+                }
+            }
+            // fans: nearly everybody names one of a few hubs (large in-degrees)
+            4 => {
+                if rng.chance(19, 20) {
+                    *rng.pick(&hubs)
                 } else {
                     *rng.pick(&nodes)
                 }
